@@ -255,18 +255,11 @@ def rollback(facts, rep, flow_of):
             ok = bool(blocks) and bool(oks) and C.must_pass(r, 0, oks, blocks, after=False)
             rep.ob("C11.R", "remove_last_node|%s" % what, ok,
                    "every Ok path of remove_last_node passes through %s" % what, r.loc())
-        tcu = [bb for bb, t in r.calls() if callee_name(t) == "type_inference::TypeInferenceWorker::unregister_node"]
-        removed = set()
-        for bb in range(r.nblocks()):
-            if r.term(bb)["k"] == "switch" and not r.is_cleanup(bb):
-                src = C.switch_source(r, bb)
-                if src and src["kind"] == "discr" and src["adt"] == "std::option::Option":
-                    tr = fl.trail(src["place"])
-                    if tr and tr[-1] == "type_checker":
-                        removed |= C.variant_switch_removed(r, bb, 1)
-        ok = bool(tcu) and bool(oks) and C.must_pass(r, 0, oks, tcu, removed_edges=removed, after=False)
+        ok, why = must_call_on_ok(facts, r, flow_of, "type_inference::TypeInferenceWorker::unregister_node", "type_checker")
         rep.ob("C11.R", "remove_last_node|TypeInferenceWorker::unregister_node", ok,
-               "when a type checker exists every Ok path drops the node's cached type (a stale entry would be served to the next node with this id)",
+               "when a type checker exists every Ok path of remove_last_node (incl. the helpers it calls) drops the node's cached "
+               "type (%s)" % why if ok else
+               "a rolled-back node can keep its cached type (%s): the stale entry is served to the next node with this id" % why,
                r.loc())
     # try_update_total_size: counter written only on the success path
     t = facts.body("graphs::Context::try_update_total_size")
@@ -288,6 +281,43 @@ def rollback(facts, rep, flow_of):
                 bad |= (C.reachable_after(b, c, removed_edges=rem) & errs)
             rep.ob("C11.R", "add_node_internal|no error after size update", not bad,
                    "after try_update_total_size succeeded no error exit is reachable (bb%s)" % sorted(bad), b.loc())
+
+
+def must_call_on_ok(facts, b, flow_of, target, option_field, depth=0):
+    """every path from entry to an Ok exit calls `target` directly or through a crate callee for which the same holds;
+    switches on the Option field `option_field` are taken to be Some (the rule is about the case where it exists)"""
+    fl = flow_of(b.id)
+    oks = C.ok_exit_blocks(b)
+    if not oks:
+        return False, "%s has no Ok exit" % b.id
+    removed = set()
+    for bb in range(b.nblocks()):
+        if b.term(bb)["k"] == "switch" and not b.is_cleanup(bb):
+            src = C.switch_source(b, bb)
+            if src and src["kind"] == "discr" and src["adt"] == "std::option::Option":
+                tr = fl.trail(src["place"])
+                if tr and tr[-1] == option_field:
+                    removed |= C.variant_switch_removed(b, bb, 1)
+    through = []
+    via = []
+    for bb, t in b.calls():
+        if b.is_cleanup(bb):
+            continue
+        cn = callee_name(t)
+        if cn == target:
+            through.append(bb)
+        elif cn in facts.bodies and depth < 2 and facts.bodies[cn].file == b.file and cn != b.id:
+            ok2, _ = must_call_on_ok(facts, facts.bodies[cn], flow_of, target, option_field, depth + 1)
+            if ok2:
+                through.append(bb)
+                via.append(cn.split("::")[-1])
+    if not through:
+        return False, "%s never reaches %s" % (b.id.split("::")[-1], target.split("::")[-1])
+    ok = C.must_pass(b, 0, oks, through, removed_edges=removed, after=False)
+    if ok:
+        return True, "in %s%s" % (b.id.split("::")[-1], (" via " + "/".join(sorted(set(via)))) if via else "")
+    wit = C.find_path(b, [0], oks, removed_edges=removed, removed_blocks=set(through))
+    return False, "%s has an Ok path that skips it (bb%s)" % (b.id.split("::")[-1], wit)
 
 
 def describe_exit(b, e):
@@ -332,3 +362,212 @@ def _ordinal(b, bb):
         if callee_name(t) == n:
             k += 1
     return k
+
+
+# ============================================================================ C11.B / C11.D
+MUTATING = ("::insert", "::push", "::remove", "::pop", "::extend", "::clear", "::push_back", "::retain", "::truncate",
+            "::append", "::drain", "::swap_remove")
+LAZY = ("::entry", "::or_default", "::or_insert_with", "::or_insert")
+# fields that are not part of a context's observable state (not serialized, not compared, only a cache)
+UNOBSERVABLE = {"type_checker": "type cache; rebuilt on demand by Node::get_type"}
+PAIRS = (("graphs_names", "graphs_names_inverse"), ("nodes_names", "nodes_names_inverse"))
+
+
+def effective_writes(facts, b, fl):
+    """(bb, field trail, callee) of container mutations / field stores on a mutably borrowed Graph/Context body"""
+    out = []
+    for bb, t in b.calls():
+        n = callee_name(t) or ""
+        if b.is_cleanup(bb) or not n.startswith(("std::", "hashbrown::", "<std::", "alloc::", "core::")):
+            continue
+        if not n.endswith(MUTATING) or not t["args"] or t["args"][0][0] == "k":
+            continue
+        tr = fl.trail(t["args"][0][1])
+        root = fl.root_of(t["args"][0][1][0])
+        # receiver must live inside a GraphBody/ContextBody (reached through a borrow_mut)
+        inside = any(x in BODIES for x in (b.local_adt(root),)) or _through_borrow_mut(b, fl, t["args"][0][1][0])
+        if not inside or not tr:
+            continue
+        # lazy creation of an empty per-graph map is not observable
+        if n.endswith("::insert") and len(t["args"]) >= 3:
+            vo = fl.origins(t["args"][2], (bb, None))
+            if not vo:  # HashMap::new() / Vec::new(): empty container
+                continue
+        out.append((bb, tuple(tr), n))
+    for bb, j, place, rv in b.assigns():
+        if len(place) > 1 and field_name(place[-1]) is not None and not b.is_cleanup(bb):
+            if _through_borrow_mut(b, fl, place[0]):
+                out.append((bb, tuple(fl.trail(place)), "store"))
+    return out
+
+
+def _through_borrow_mut(b, fl, l, depth=0):
+    ds = fl.defs_of.get(l, [])
+    if len(ds) != 1 or depth > 25:
+        return False
+    _, bb, j = fl.defs[ds[0]]
+    if bb < 0:
+        return False
+    if j is None:
+        t = b.term(bb)
+        n = callee_name(t) or ""
+        if n.endswith("AtomicRefCell::<T>::borrow_mut") and t["f"].get("ga") and t["f"]["ga"][0] in BODIES:
+            return True
+        if t["args"] and t["args"][0][0] != "k" and (n.endswith(("::deref_mut", "::deref", "::get_mut", "::index_mut", "::expect",
+                                                                "::unwrap", "::as_mut", "::or_default", "::entry", "::or_insert_with"))):
+            return _through_borrow_mut(b, fl, t["args"][0][1][0], depth + 1)
+        return False
+    rv = b.stmts(bb)[j][2]
+    if rv[0] in ("ref", "raw"):
+        return _through_borrow_mut(b, fl, rv[2][0], depth + 1)
+    if rv[0] == "use" and rv[1][0] != "k":
+        return _through_borrow_mut(b, fl, rv[1][1][0], depth + 1)
+    return False
+
+
+def atomicity(facts, rep, muts, flow_of):
+    n = 0
+    for name in sorted(muts):
+        if name == "graphs::Graph::add_node_internal":
+            continue  # compensated by remove_last_node: rule C11.R
+        b = facts.bodies[name]
+        fl = flow_of(name)
+        ws = effective_writes(facts, b, fl)
+        errs = C.error_exit_blocks(b)
+        inf = infeasible_edges(b, fl)
+        bad = []
+        for bb, tr, cn in ws:
+            n += 1
+            if tr and tr[-1] in UNOBSERVABLE:
+                continue
+            r = C.reachable_after(b, bb, removed_edges=inf) & errs
+            if r:
+                bad.append((tr[-1] if tr else "?", cn.split("::")[-1], sorted(r)))
+        rep.ob("C11.B", "%s|no-error-after-write" % name, not bad,
+               "no error exit is reachable after a write to the shared body (%d write(s): %s)" % (
+                   len(ws), sorted(set(w[1][-1] for w in ws if w[1]))) if not bad else
+               "the call can return Err after it already changed the context: %s" % (
+                   ["%s.%s -> error exit bb%s" % (f, c, e) for f, c, e in bad]), b.loc())
+        fields = {}
+        for bb, tr, cn in ws:
+            if tr:
+                kind = "remove" if cn.endswith(("::remove", "::pop")) else "insert"
+                fields.setdefault(tr[-1] if tr[-1] in sum(PAIRS, ()) else (tr[-2] if len(tr) > 1 and tr[-2] in sum(PAIRS, ()) else tr[-1]),
+                                  set()).add(kind)
+        for a, c in PAIRS:
+            if a in fields or c in fields:
+                # the inverse table of nodes is a map of maps: a write to an inner map has the inner trail
+                ka, kc = fields.get(a, set()), fields.get(c, set())
+                inner = any(len(w[1]) and w[1][-1] not in sum(PAIRS, ()) for w in ws)
+                ok = bool(ka) and (bool(kc) or inner)
+                rep.ob("C11.B", "%s|pair:%s" % (name, a), ok,
+                       "%s updates both %s (%s) and %s (%s)" % (name.split("::")[-1], a, sorted(ka), c, sorted(kc) or "inner map"), b.loc())
+    rep.floor("C11.B", "effective writes to Graph/Context bodies", n, 15)
+
+
+def dependency_discipline(facts, rep, flow_of):
+    name = "graphs::Graph::add_node_internal"
+    b = facts.body(name)
+    if not rep.anchor("C11.D", name, b):
+        return
+    fl = flow_of(name)
+    agg = [bb for bb, j, place, rv in b.assigns() if rv[0] == "agg" and rv[1].get("adt") == "graphs::NodeBody"]
+    if not rep.anchor("C11.D", "NodeBody aggregate in add_node_internal", agg):
+        return
+    A = agg[0]
+
+    def names(ors):
+        return {o[2] for o in ors if o[0] == "call"}
+
+    def has_self(ors):
+        return any(o[0] == "param" and o[1] == 1 for o in ors)
+
+    guards = {}
+    for bb in range(b.nblocks()):
+        if b.term(bb)["k"] != "switch" or b.is_cleanup(bb):
+            continue
+        src = C.switch_source(b, bb)
+        if not src:
+            continue
+        kind = None
+        bad = None
+        if src["kind"] == "call":
+            ct = b.term(src["bb"])
+            cn = src["callee"] or ""
+            d = ct["f"].get("def") or ""
+            if d in ("std::cmp::PartialEq::ne", "std::cmp::PartialEq::eq") and len(ct["args"]) == 2:
+                ao = fl.origins(ct["args"][0], (src["bb"], None))
+                bo = fl.origins(ct["args"][1], (src["bb"], None))
+                na, nb = names(ao), names(bo)
+                if "graphs::Node::get_graph" in na | nb and (has_self(ao) or has_self(bo)):
+                    kind = "dependency lives in this graph"
+                elif "graphs::Graph::get_context" in na and "graphs::Graph::get_context" in nb:
+                    kind = "graph dependency is in the same context"
+                elif any(x.endswith("::index") for x in na | nb) or ("graphs::Node::get_id" in na | nb and
+                                                                    any(o[0] == "call" and o[2].endswith("::borrow") for o in ao | bo)):
+                    kind = "stored node at that id is the dependency"
+                else:
+                    # Index collapses into its container: nodes[..] vs dependency
+                    ga = ct["f"].get("ga") or []
+                    if ga and ga[0] == "graphs::Node":
+                        kind = "stored node at that id is the dependency"
+                if kind:
+                    bad = (d.endswith("::ne"))
+            elif cn == "graphs::Graph::is_finalized":
+                ro = fl.origins(ct["args"][0], (src["bb"], None))
+                if not has_self(ro):
+                    kind = "graph dependency is finalized"
+                    bad = False
+        elif src["kind"] == "cmp" and src["op"] in ("Ge", "Lt", "Gt", "Le"):
+            ao = fl.origins(src["a"], (src["bb"], src["j"]))
+            bo = fl.origins(src["b"], (src["bb"], src["j"]))
+            na, nb = names(ao), names(bo)
+            if "graphs::Node::get_id" in na and any(x.endswith("::len") for x in nb):
+                kind = "dependency id precedes the new node"
+                bad = {"Ge": True, "Lt": False}.get(src["op"])
+            elif "graphs::Graph::get_id" in na and "graphs::Graph::get_id" in nb:
+                kind = "graph dependency is older than this graph"
+                bad = {"Ge": True, "Lt": False}.get(src["op"])
+        if kind is None or bad is None:
+            continue
+        if src["neg"]:
+            bad = not bad
+        t = b.term(bb)
+        arms = dict(t["arms"])
+        tgt_bad = arms.get("1", t["else"]) if bad else arms.get("0", t["else"])
+        escapes = A in C.reachable(b, [tgt_bad])
+        guards.setdefault(kind, []).append((bb, not escapes))
+    want = ["dependency lives in this graph", "dependency id precedes the new node", "stored node at that id is the dependency",
+            "graph dependency is finalized", "graph dependency is older than this graph", "graph dependency is in the same context"]
+    for w in want:
+        g = guards.get(w, [])
+        ok = any(x[1] for x in g)
+        rep.ob("C11.D", w, ok,
+               ("checked before the node is created: a failing test cannot reach the NodeBody aggregate (tests at bb%s)" % [x[0] for x in g])
+               if ok else ("no effective check that the %s: the node can be created when it does not hold" % w), b.loc(A))
+    # the id of the new node is the current length of `nodes`
+    for bb, j, place, rv in b.assigns():
+        if rv[0] == "agg" and rv[1].get("adt") == "graphs::NodeBody":
+            k = rv[1]["fields"].index("id")
+            ors = fl.origins(rv[2][k], (bb, j))
+            ok = any(o[0] == "call" and o[2].endswith("::len") for o in ors) and all(o[0] in ("call", "cast") for o in ors)
+            rep.ob("C11.D", "id-is-len", ok, "the new node's id is nodes.len() (%s)" % sorted(names(ors)), b.loc(bb))
+
+
+_run_gr = run
+
+
+def run(facts, rep, tier):
+    _run_gr(facts, rep, tier)
+    muts = {}
+    for name, b in facts.bodies.items():
+        if b.crate == "ciphercore_base" and borrow_mut_sites(b):
+            muts[name] = True
+    flows = {}
+
+    def flow_of(name):
+        if name not in flows:
+            flows[name] = Flow(facts, facts.bodies[name])
+        return flows[name]
+    atomicity(facts, rep, muts, flow_of)
+    dependency_discipline(facts, rep, flow_of)
